@@ -83,3 +83,97 @@ package ecs
 //@   loop 1 invariant bits: forall c uint8 :: int(c) < __idx && m64has(*b, c) ==> idListed(types, idx, c)
 //@   ensures  length: len(result) >= 0
 //@   ensures  complete: forall c uint8 :: int(c) < len(reg.Components) && m64has(*b, c) ==> (exists k int :: 0 <= k && k < len(result) && result[k].id == c)
+
+// ---- the component storages never move (C18) -------------------------------------------------
+// Mappers, filters and queries keep pointers &storage.components[id] for the life of the world.
+// They stay valid because the slice is created with capacity for the documented maximum number of
+// component types, so the append in AddComponent never reallocates.
+
+//@ pred compCapInv(s *storage) :=
+//@      cap(s.components) == maskTotalBits && cap(s.componentIndex) == maskTotalBits
+//@   && len(s.components) == len(s.componentIndex) && len(s.components) <= maskTotalBits
+
+//@ func newStorage
+//@   serves C18
+//@   maypanic
+//@   mayfault
+//@   ensures  capacity: cap(result.components) == maskTotalBits && cap(result.componentIndex) == maskTotalBits && len(result.components) == 0 && len(result.componentIndex) == 0
+
+//@ func (*storage).AddComponent
+//@   serves C18
+//@   requires compCapInv(s) && int(id) < maskTotalBits
+//@   panics   len(s.components) != int(id)
+//@   ensures  inv: compCapInv(s)
+//@   ensures  inplace: __samearray(s.components, old(s.components)) && __samearray(s.componentIndex, old(s.componentIndex))
+//@   ensures  count: len(s.components) == old(len(s.components)) + 1
+
+//@ pred cregInv(r *componentRegistry) := regInv(&r.registry) && len(r.IsRelation) == maskTotalBits && len(r.IsTrivial) == maskTotalBits
+
+//@ func isRelation
+//@   serves C18
+//@   trusted
+//@   modifies nothing
+
+//@ func isTrivial
+//@   serves C18
+//@   trusted
+//@   modifies nothing
+
+//@ func (*componentRegistry).registerComponent
+//@   serves C18
+//@   requires cregInv(r) && !__has(r.Components, tp) && totalBits == maskTotalBits
+//@   panics   len(r.Components) >= maskTotalBits
+//@   ensures  inv: cregInv(r)
+//@   ensures  id: int(result) == old(len(r.Components)) && len(r.Components) == old(len(r.Components)) + 1
+//@   ensures  maps: __has(r.Components, tp) && r.Components[tp] == result
+//@   xpure
+
+//@ func (*componentRegistry).ComponentID
+//@   serves C18
+//@   requires cregInv(r)
+//@   panics   !__has(r.Components, tp) && len(r.Components) >= maskTotalBits
+//@   ensures  inv: cregInv(r)
+//@   ensures  known: old(__has(r.Components, tp)) ==> result0 == old(r.Components[tp]) && !result1 && len(r.Components) == old(len(r.Components))
+//@   ensures  fresh: !old(__has(r.Components, tp)) ==> int(result0) == old(len(r.Components)) && result1 && len(r.Components) == old(len(r.Components)) + 1
+//@   xpure
+
+//@ func (*componentRegistry).unregisterLastComponent
+//@   serves C18
+//@   requires cregInv(r) && len(r.Components) > 0
+//@   ensures  inv: cregInv(r)
+//@   ensures  count: len(r.Components) == old(len(r.Components)) - 1
+
+//@ func (*World).componentID
+//@   serves C18
+//@   panics   !__has(w.storage.registry.Components, tp) && (len(w.storage.registry.Components) >= maskTotalBits || (exists i uint8 :: m64has(w.storage.locks.locks, i)))
+//@   requires cregInv(&w.storage.registry) && compCapInv(&w.storage) && len(w.storage.components) == len(w.storage.registry.Components) && lockInv(&w.storage.locks)
+//@   ensures  inv: cregInv(&w.storage.registry) && compCapInv(&w.storage) && len(w.storage.components) == len(w.storage.registry.Components)
+//@   ensures  inplace: __samearray(w.storage.components, old(w.storage.components))
+//@   ensures  registered: int(result.id) < len(w.storage.components)
+
+// constructors called by newStorage: trusted to build fresh values without touching other state
+//@ func newArchetype
+//@   serves C18
+//@   trusted
+//@   modifies nothing
+
+//@ func newEntityPool
+//@   serves C18
+//@   trusted
+//@   modifies nothing
+
+// ---- the rare-component hint of an unregistered filter is one of its components (C13, C03) ----
+// An unregistered query walks the archetypes of storage.componentIndex[rareComp]; that list is
+// complete for the filter only if rareComp is one of the filter's required components.
+
+//@ spec func hintListed(ids []ID, rare uint8) bool := exists k int :: __trigger(&ids[k]) && 0 <= k && k < len(ids) && ids[k].id == rare
+//@ spec func hintOK(ids []ID, generation uint32, rare uint8) bool := generation != 0 ==> hintListed(ids, rare)
+
+//@ func (*componentRegistry).rareComponent
+//@   serves C13 C03
+//@   requires len(r.Archetypes) == maskTotalBits
+//@   assumes  counts: forall i uint8 :: r.Archetypes[i] < 1<<62
+//@   loop 1 invariant low: (__idx == 0 ==> minCount == 1<<63 - 1) && (__idx > 0 ==> minCount < 1<<62)
+//@   loop 1 invariant found: __idx > 0 ==> (exists k int :: 0 <= k && k < __idx && ids[k].id == rareID.id)
+//@   ensures  member: len(ids) > 0 ==> hintListed(ids, result.id)
+//@   modifies nothing
